@@ -259,12 +259,18 @@ impl SpiDevice<u8> for RecSpi {
             count_op(&mut t);
             flush_wr(&mut t);
             let failed = fallible(&mut t);
-            let ok = if failed.is_none() { 1 } else { 0 };
+            // a failing transaction delivers nothing, or (fault "effect") the first half of its bytes
+            let partial = failed.is_some() && t.fault_effect;
+            let ok = if failed.is_none() { 1 } else if partial { 3 } else { 0 };
             let mut s = String::new();
             if operations.len() == 1 {
                 if let Operation::Write(b) = &operations[0] {
                     s.push_str("[\"spi\",");
-                    bytes_json(&mut s, b);
+                    if partial {
+                        bytes_json(&mut s, &b[..b.len() / 2]);
+                    } else {
+                        bytes_json(&mut s, b);
+                    }
                     let _ = write!(s, ",{ok}]");
                 }
             }
